@@ -136,7 +136,7 @@ NOTES = {
     'S-C27b': 'first missed: no C27 run had an unsatisfied prerequisite whose output was in the DB; the workload now removes a partially satisfied waiting task before the reload (another parent respawns it)',
     'S-C10b': 'first missed: the poll that must follow a backward message was recorded but never checked; C10 now requires a poll of that job within 12 iterations unless the task left the pool or went back to waiting',
     'S-C43b': 'first missed (C43 and C19): no run combined a stop point with a stop task; C43 now does in half of its stop-task cases and requires the unreached stop point to survive in the DB',
-    'S-C09b': 'caught by C27 (outputs across a reload); C09 has no reload in its workload',
+    'S-C09b': 'first caught only by C27 (outputs across a reload); C09 then got a mid-run reload in a third of its cases, which catches it and also found the genuine defect f3b13e3',
     'S-C01b': 'caught by C09 and C10; C01 does not see it (with message loss its closure check only gives a lower bound)',
     'S-C03b': 'first missed: no check combined manual triggers with job-preparation failures; the bash -n seam now injects them and C28 got the stranded-member rule',
     'S-C11b': 'caught by C27 (outputs across a reload), not by C11',
